@@ -133,7 +133,12 @@ fn check_text(prop: &str, text: &str, rep: &mut Report) {
 
 fn check_lookups(v: &Value, rv: &RefValue, text: &str, rep: &mut Report) {
     if let (Value::Object(o), RefValue::Obj(es)) = (v, rv) {
-        for (k, _) in es {
+        // the keys asked for: every key of the object, and keys it does NOT have (a lookup of an absent key
+        // finds nothing) -- the empty key, fixed probes, and each present key with one character more / less
+        let mut asked: Vec<String> = Vec::new();
+        for (k, _) in es { for q in [k.clone(), format!("{}x", k), k.chars().take(k.chars().count().saturating_sub(1)).collect::<String>()] { if !asked.contains(&q) { asked.push(q); } } }
+        for q in ["", "a", "b", "c", "absent", "\u{e9}"] { if !asked.contains(&q.to_string()) { asked.push(q.to_string()); } }
+        for k in &asked {
             let want: Vec<&RefValue> = es.iter().filter(|(k2, _)| k2 == k).map(|(_, x)| x).collect();
             let got: Vec<RefValue> = o.get(k.as_str()).map(from_real).collect();
             if got.iter().collect::<Vec<_>>() != want { rep.violation("key lookup == linear scan in source order", "lookup", format!("{:?} key={:?}", text, k), format!("got={:?}", got)); }
